@@ -12,7 +12,7 @@ EXTENDS Emit
 Grid == IF Thorough THEN Shapes(3, 3) \cup Shapes(5, 2)
         ELSE Shapes(2, 2) \cup {<<3>>, <<2, 3>>, <<3, 1, 2>>, <<2, 2, 2>>, <<1, 2, 1, 2>>, <<2, 1, 2, 1, 2>>, <<6>>, <<4, 5>>, <<2, 5, 3>>, <<17>>, <<18, 2>>}
 GridSeq == SetToSeq(Grid)
-Slopes == <<Q(1, 100), Zero, Half, QI(-1), QI(3), Q(1, 100000000), QI(-2)>>       \* a slope of 1e-8: an implementation that forms 1 +- m loses it
+Slopes == <<Q(1, 100), Zero, Half, QI(-1), QI(3), Q(1, 100000000), QI(-2), Cst("giga")>>       \* a slope of 1e-8: an implementation that forms 1 +- m loses it
 
 ElemDescs == Flatten2([i \in DOMAIN GridSeq |->
    << <<"relu", GridSeq[i]>>, <<"sigmoid", GridSeq[i]>>, <<"tanhact", GridSeq[i]>> >>
@@ -35,9 +35,11 @@ Build(d) ==
   CASE d[1] \in {"relu", "sigmoid", "tanhact"} ->
          MkCase("c14", d[1], <<In("x", d[2], FALSE)>>, <<D>>, <<Ins(d[1], NoPar, <<1>>)>>, <<2>>, 0, TRUE)
     [] d[1] = "leakyrelu" ->
-         MkCase("c14", d[1], <<In("x", d[2], FALSE)>>, <<D>>, <<Ins(d[1], [k |-> d[3], nilconf |-> d[4]], <<1>>)>>, <<2>>, 0, TRUE)
+         (* fourth profile: inputs next to the largest finite number (an implementation that forms m*x + (1-m)*max(0,x) overflows) *)
+         MkCase("c14", d[1], <<In("x", d[2], FALSE)>>, <<D \o ",huge">>, <<Ins(d[1], [k |-> d[3], nilconf |-> d[4]], <<1>>)>>, <<2>>, 0, TRUE)
     [] d[1] = "softmax" ->
-         MkCase("c14", d[1], <<In("x", d[2], FALSE)>>, <<D>>,
+         (* fourth profile: one entry in five is +700, the others -700 (a slice far from symmetric about its mean) *)
+         MkCase("c14", d[1], <<In("x", d[2], FALSE)>>, <<D \o ",lop700">>,
                 <<Ins("softmax", [dim |-> d[3], nilconf |-> d[4]], <<1>>), Ins("sumalong", [dim |-> d[3]], <<2>>)>>, <<2, 3>>, 0, TRUE)
          @@ [props |-> <<"nonneg", "finite">>]
     [] d[1] = "reuse" ->
